@@ -479,6 +479,7 @@ def run_cell(h, cell, tier, seed, budget_s):
         res["notes"].append("%s: %s" % (type(e).__name__, e))
         res["notes"].append(traceback.format_exc()[-2500:])
     mon.stop()
+    res["extra"] = getattr(h, "_extra", {}).get(cell["name"])
     res["functions"] = mon.functions()
     res["wall_s"] = round(time.time() - t0, 2)
     return res
@@ -710,6 +711,7 @@ def finish(h, tier, seed, cells, results, wall):
             "infeasible_paths": agg["aborted"],
             "known_findings_hit": sorted(seen_known),
             "problems": problems,
+            "extra": {r["cell"]: r.get("extra") for r in results if r.get("extra")},
             "solver": "z3 %s" % z3.get_version_string(),
             "stubs": list(worlds.SYM_STUBS) + list(h.stubs),
             "concrete_world_shims": list(worlds.SHIMS),
